@@ -16,15 +16,22 @@ def resolve_fn(prog, suffix):
     return r[0]
 
 
+def _name_match(c, w):
+    """table names starting with `::` are whole last segments (`::from_compressed` does not match `from_compressed_unchecked`)"""
+    return w.endswith(c) if c.startswith('::') else (c in w)
+
+
 def gate_is_comparison(g):
     if g.kind == 'cmp':
         return True
     if g.kind == 'call':
         w = g.what or ''
-        return any(x in w for x in ('PartialEq', 'is_identity', 'is_none', 'is_some', 'is_zero', 'ct_eq', 'Ord::cmp',
+        return any(_name_match(x, w) for x in ('PartialEq', 'is_identity', 'is_none', 'is_some', 'is_zero', 'ct_eq', 'Ord::cmp',
                                     'PartialOrd', 'contains', 'is_empty', 'Iterator::any', 'Iterator::all', 'Iterator::find',
                                     'is_ok', 'is_err', 'try_from', 'try_into', 'Iterator::next', 'Vec::<T, A>::pop',
-                                    'slice::<impl [T]>::get', 'checked_', 'is_probably_prime', 'Integer'))
+                                    'slice::<impl [T]>::get', 'checked_', 'is_probably_prime', 'Integer',
+                                    # a switch on the Option a checked constructor's CtOption was converted into
+                                    '::from_be_bytes', '::from_compressed', '::from_uncompressed'))
     return False
 
 
@@ -68,7 +75,7 @@ def _eval_requirement(body, ap, req):
                 continue
             if w.endswith('Iterator::all') and g.truth is not True:
                 continue
-        if callee_any and not (g.kind == 'call' and any(c in (g.what or '') for c in callee_any)):
+        if callee_any and not (g.kind == 'call' and any(_name_match(c, g.what or '') for c in callee_any)):
             if not (ops_any and g.kind == 'cmp' and g.what in ops_any):
                 continue
         elif ops_any and not callee_any and not (g.kind == 'cmp' and g.what in ops_any):
